@@ -300,8 +300,8 @@ fn gen_cfg_of(rng: &mut Rng, wf: bool) -> GenCfg {
     g.max_blocks = 8;
     g.max_instrs = 6;
     g.branch = rng.chance(1, 3);
-    g.intrinsic = rng.chance(1, 3);
-    g.allow_div = rng.chance(1, 2);
+    g.intrinsic = rng.chance(1, 4);
+    g.allow_div = rng.chance(1, 3);
     g.partition_guards = wf;
     g
 }
@@ -508,7 +508,7 @@ fn terminal(ans: &str) -> String {
 fn generate(tier: Tier, rng: &mut Rng, emit: &mut Emit) {
     let programs = match tier {
         Tier::Quick => 4000,
-        Tier::Thorough => 20000,
+        Tier::Thorough => 10000,
     };
     let watch = format!(
         "(watch {})",
